@@ -702,3 +702,7 @@ Definition wf_prog (p : prog) : bool :=
 
 (* test of the theorem's statement before/independently of its proof: wf_prog p -> M p = S p *)
 Definition check_wf_ms (p : prog) : bool := negb (wf_prog p) || check_ms p.
+
+(* one pass over the cases in the common (all agree) situation *)
+Definition check_mech_restored (c : core_case) : bool := check_mech c && check_restored (fst c).
+Definition check_all (c : core_case) : bool := check_mech c && check_restored (fst c) && check_ms (fst c).
